@@ -81,6 +81,12 @@ class P(Prop):
             else:
                 es = G.ends(rng, k, rng.choice(["inc", "dups", "ints", "zero_width"]))
             sg = [[C.bits(e)] + [C.bits(rng.choice([rng.small_int(-4, 4), rng.uniform(-2, 2)])) for _ in range(G.arity(ty))] for e in es]
+            if rng.random() < 0.25:
+                # low-degree pieces stored in a high-degree type: the upper coefficients are exactly zero
+                keep = rng.randint(1, max(1, G.arity(ty) - 1))
+                for sgm in sg:
+                    for j in range(1 + keep, len(sgm)):
+                        sgm[j] = C.bits(rng.choice([0.0, 0.0, -0.0]))
             first = es[0]
             if log:
                 kx = rng.choice([first, first * 0.5, first * 0.9, first * 1.001, es[-1] * 2.0, 1.0, 16.0])
@@ -92,6 +98,12 @@ class P(Prop):
             if op == "pw_integral_all":
                 c["knot"] = [C.bits(kx), C.bits(ky)]
             out.append(c)
+        for k in (17, 33, 65, 100):
+            ty = rng.choice(["Poly1", "Poly2"])
+            es = [float(i + 1) * 0.5 for i in range(k)]
+            sg = [[C.bits(e)] + [C.bits(rng.small_int(-3, 3)) for _ in range(G.arity(ty))] for e in es]
+            out.append(dict(op="pw_integral_all", ty=ty, segs=sg, knot=[C.bits(0.25), C.bits(1.0)], libm=False, meta={"class": "integral/long"}))
+            out.append(dict(op="pw_indefinite", ty=ty, segs=sg, libm=False, meta={"class": "indefinite/long"}))
         for _ in range(12 if tier == "quick" else 150):
             ty = rng.choice(["Poly0", "Poly1", "Poly2", "Poly3", "Log<Poly1>", "Log<Poly2>"])
             log = ty.startswith("Log")
